@@ -282,6 +282,22 @@ def _request(rng, lo, hi, small_bias=True, max_width=40, overlap=False, hyphen_b
 
 def gen_cases(ctx):
     rng = ctx.rng
+    # requests that cover everything (the complete range is a request like any other)
+    full = [{"k": "proto", "platform": "ios", "protocols": "0-255", "line": "permit ip any any", "protocol_nr": False},
+            {"k": "proto", "platform": "nxos", "protocols": "0,1-255", "line": "deny ip any any log", "protocol_nr": True},
+            {"k": "proto", "platform": "ios", "protocols": "0-100,101-255", "line": "10 permit ip host 10.0.0.1 any", "protocol_nr": False},
+            {"k": "proto", "platform": "ios", "protocols": "255,0-254", "line": "permit ip any any", "protocol_nr": True},
+            {"k": "ports", "platform": "ios", "line": "permit tcp any any", "ops": {"src": "", "dst": ""}, "port_nr": True,
+             "port_count": 1, "port_range": True, "dstports": "1-65535"},
+            {"k": "ports", "platform": "nxos", "line": "permit udp any any", "ops": {"src": "", "dst": ""}, "port_nr": False,
+             "port_count": 1, "port_range": True, "srcports": "1-65534,65535"}]
+    if ctx.tier == "thorough":
+        full.append({"k": "ports", "platform": "ios", "line": "permit tcp any any", "ops": {"src": "", "dst": ""}, "port_nr": True,
+                     "port_count": 1, "port_range": False, "dstports": "1-65535"})
+    for n, case in enumerate(full):
+        if n % ctx.nshards == ctx.shard:
+            ctx.count("complete_range_requests")
+            yield case
     while True:
         platform = rng.choice(["ios", "ios", "nxos"])
         if rng.random() < 0.2:
